@@ -470,9 +470,36 @@ def _run_history(case, v: Verdict, coll, coll_dir):
             zp.apply_config(manager, cfg_of[conf])
         elif kind == "deton":
             try:
-                manager.solveWallDetonation(e2e.settings_obj(case["settings"][int(op[1])]))
+                dres = manager.solveWallDetonation(e2e.settings_obj(case["settings"][int(op[1])]))
             except (WallGo.WallGoError, AssertionError):
                 v.label("deton_error")
+                dres = []
+            from WallGo.results import ESolutionType as _EST
+
+            hyd_ = manager.hydrodynamics
+            for rd in dres:
+                v.checked("labelling")
+                dcls = f"{spec_of[point]['family']} detonation-search"
+                v.label(f"deton_outcome:{rd.solutionType.name}")
+                if (not rd.success) != (rd.solutionType == _EST.ERROR):
+                    v.fail("labelling", dcls, f"success={rd.success} but solutionType={rd.solutionType.name}")
+                if rd.solutionType in (_EST.RUNAWAY, _EST.DEFLAGRATION, _EST.DEFLAGRATION_OR_RUNAWAY) \
+                        and rd.wallVelocity is not None:
+                    v.fail("labelling", dcls, f"{rd.solutionType.name} from the detonation search carries wallVelocity={rd.wallVelocity}")
+                if rd.success and rd.solutionType == _EST.DETONATION:
+                    v.checked("window")
+                    vd = rd.wallVelocity
+                    if vd is None or not math.isfinite(vd):
+                        v.fail("labelling", dcls, "DETONATION success without a finite velocity")
+                    elif not (hyd_.vJ < vd <= manager.config.configEOM.vwMaxDeton + 1e-12):
+                        v.fail("window", dcls, f"detonation velocity {vd} outside (vJ={hyd_.vJ}, {manager.config.configEOM.vwMaxDeton}]")
+                    else:
+                        v.checked("attached-hydro")
+                        if abs(rd.temperaturePlus - hyd_.Tnucl) > 1e-12 * hyd_.Tnucl:
+                            v.fail("attached-hydro", dcls, f"detonation with T+={rd.temperaturePlus} != Tn={hyd_.Tnucl}")
+                        _, _, Tp_, Tm_, _ = hyd_.findHydroBoundaries(vd)
+                        if abs(rd.temperatureMinus - Tm_) > 1e-12 * Tm_:
+                            v.fail("attached-hydro", dcls, f"T- reported {rd.temperatureMinus} differs from findHydroBoundaries(v) {Tm_}")
         elif kind == "solve":
             sidx = int(op[1])
             settings = case["settings"][sidx]
